@@ -149,3 +149,75 @@ def succeeded_before(fn, site_block, is_target, _depth=0):
         if ok:
             return True
     return False
+
+
+_FAILURE = {'std::result::Result': ('Err', 1), 'std::option::Option': ('None', 0), 'std::ops::ControlFlow': ('Break', 1)}
+_FAIL_PASS = ('Try>::branch', 'Result::<T, E>::map_err', 'Result::<T, E>::map', 'Option::<T>::map', 'Option::<T>::ok_or', 'Option::<T>::ok_or_else', 'Result::<T, E>::ok')
+
+
+def _origin_of_failure(fn, l, depth=0):
+    """The call whose failure variant the Result/Option in local l carries (through moves, `?`, map/map_err/ok/ok_or)."""
+    if depth > 8:
+        return None
+    sd = fn.single_def(l)
+    if not sd:
+        return None
+    if sd[2] == 'call':
+        t = sd[3]
+        n = callee_name(t)
+        if any(n.endswith(x) for x in _FAIL_PASS) and t['args'] and is_place(t['args'][0]) and not t['args'][0]['pl']['p']:
+            return _origin_of_failure(fn, t['args'][0]['pl']['l'], depth + 1)
+        return t
+    rv = sd[3]['rv']
+    if rv['k'] == 'use' and is_place(rv['op']) and not rv['op']['pl']['p']:
+        return _origin_of_failure(fn, rv['op']['pl']['l'], depth + 1)
+    if rv['k'] == 'ref' and not rv['pl']['p']:
+        return _origin_of_failure(fn, rv['pl']['l'], depth + 1)
+    return None
+
+
+def failed_before(fn, site_block, is_target):
+    """Every path to `site_block` passed a call accepted by `is_target` and saw it return its FAILURE variant: some branch
+    edge that dominates the site selects Err / None / Break of a value produced by such a call, or the true edge of
+    `.is_err()` / `.is_none()` (false edge of `.is_ok()` / `.is_some()`) on it."""
+    for s in fn.doms(site_block):
+        preds = [p for p in fn.preds()[s] if p in fn.idom() and not fn.dominates(s, p)]
+        if len(preds) != 1:
+            continue
+        t = fn.blocks[preds[0]]['term']
+        if t['k'] != 'switch' or not is_place(t['op']) or t['op']['pl']['p']:
+            continue
+        sd = fn.single_def(t['op']['pl']['l'])
+        if not sd:
+            continue
+        vals = [v for v, tb in t['targets'] if tb == s]
+        if sd[2] == 'assign' and sd[3]['rv']['k'] == 'discr' and not sd[3]['rv']['pl']['p']:
+            dl = sd[3]['rv']['pl']['l']
+            ty = fn.local_ty(dl)
+            fv = next((v for pre, v in _FAILURE.items() if ty.startswith(pre)), None)
+            if fv is None:
+                continue
+            if not (vals == [fv[1]] and t['otherwise'] != s) and not (t['otherwise'] == s and not vals and sorted(v for v, _ in t['targets']) == [1 - fv[1]]):
+                continue
+            oc = _origin_of_failure(fn, dl)
+            if oc is not None and is_target(oc):
+                return True
+        elif sd[2] == 'call':
+            n = callee_name(sd[3])
+            neg = n.endswith(('Result::<T, E>::is_err', 'Option::<T>::is_none'))
+            pos = n.endswith(('Result::<T, E>::is_ok', 'Option::<T>::is_some'))
+            if not (neg or pos) or not is_place(sd[3]['args'][0]):
+                continue
+            truthy = (t['otherwise'] == s and not vals) or (vals and vals != [0])
+            if (neg and not truthy) or (pos and truthy):
+                continue
+            base = fn.canon({'l': sd[3]['args'][0]['pl']['l'], 'p': sd[3]['args'][0]['pl']['p'] + ['deref'], 'ty': ''})
+            if base['p']:
+                continue
+            oc = _origin_of_failure(fn, base['l'])
+            if oc is None:
+                sdd = fn.single_def(base['l'])
+                oc = sdd[3] if sdd and sdd[2] == 'call' else None
+            if oc is not None and is_target(oc):
+                return True
+    return False
